@@ -174,6 +174,43 @@ pub fn generate(g: &mut Gen, thorough: bool) {
             g.push(super::opg_line(&grids, def, "apply", dir, &data_of(&pts)), "model-gridshift", true);
         }
     }
+    // cells that are not square: the margin is half a cell of the axis in question.  The shipped grid with such
+    // cells (49-75 N, 0-50 E, 5' by 10') through `Plain`; a synthetic one (2 by 4 degrees cells) through the model too
+    {
+        let cart = |lat: f64, lon: f64| -> [f64; 4] {
+            let (a, f) = (6378137.0, 1.0 / 298.257222101);
+            let es = f * (2.0 - f);
+            let (phi, lam) = (lat.to_radians(), lon.to_radians());
+            let n = a / (1.0 - es * phi.sin() * phi.sin()).sqrt();
+            [n * phi.cos() * lam.cos(), n * phi.cos() * lam.sin(), n * (1.0 - es) * phi.sin(), 2000.0]
+        };
+        let mut pts = vec![];
+        let mut cl = String::new();
+        for (lat, lon, c) in [(60.0, 20.0, 'i'), (74.9, 25.0, 'i'), (49.1, 1.0, 'i'), (75.03, 25.0, 'v'), (75.06, 25.0, 'o'), (75.08, 25.0, 'o'), (48.94, 25.0, 'o'), (48.92, 10.0, 'o'), (48.97, 10.0, 'v'), (60.0, 50.07, 'v'), (60.0, 50.09, 'o'), (76.0, 25.0, 'o'), (40.0, 10.0, 'o')] {
+            pts.push(cart(lat, lon));
+            cl.push(c);
+        }
+        for dir in ["F", "I"] {
+            case(g, "plain", "deformation dt=1 grids=eur_nkg_nkgrf17vel.deformation", dir, "012", "3", &pts, &cl, "deformation-nonsquare-cells", false);
+        }
+        let mut text = String::from("50 58 10 22 2 4\n");
+        for row in 0..5 {
+            for col in 0..4 {
+                text += &format!(" {} {}", row as f64 * 1.5 - col as f64, col as f64 * 2.5 + row as f64);
+            }
+            text += "\n";
+        }
+        let grid = vec![("ns.datum".to_string(), "gravsoftb".to_string(), super::grid::hex(text.as_bytes()))];
+        let mut q = vec![];
+        for (lat, lon) in [(54.0, 16.0), (58.5, 16.0), (58.9, 16.0), (59.1, 16.0), (59.5, 16.0), (60.5, 16.0), (49.1, 12.0), (48.5, 12.0), (47.5, 12.0), (54.0, 8.5), (54.0, 7.5), (54.0, 23.5), (54.0, 24.5), (49.0, 8.0), (59.0, 24.0)] {
+            q.push([(lon as f64).to_radians(), (lat as f64).to_radians(), 10.0, 2000.0]);
+        }
+        for def in ["gridshift grids=ns.datum", "gridshift grids=ns.datum,@null"] {
+            for dir in ["F", "I"] {
+                g.push(super::opg_line(&grid, def, "apply", dir, &data_of(&q)), "model-nonsquare-cells", true);
+            }
+        }
+    }
     // pipelines with failing steps: the minimum over the steps
     for (a, b) in [("utm zone=32", "utm zone=32 inv"), ("cart", "cart inv"), ("utm zone=32", "noop"), ("gridshift grids=test.datum", "utm zone=32"), ("laea lat_0=52 lon_0=10 inv", "noop"), ("geodesic inv", "noop")] {
         let pts: Vec<[f64; 4]> = vec![
